@@ -39,6 +39,7 @@ type Stats struct {
 	Samples  []json.RawMessage          `json:"samples"`
 	MaxSamp  int                        `json:"-"`
 	Notes    map[string]string          `json:"notes"`
+	SetCap   int                        `json:"-"` // per-set bound on remembered hashes (memory); counts saturate there and say so
 }
 
 func NewStats() *Stats {
